@@ -8,6 +8,7 @@ import (
 	"os"
 	"path/filepath"
 	"testing"
+	"time"
 
 	"verif/fw"
 	"verif/ref"
@@ -178,6 +179,26 @@ func runC04(c *fw.Case) {
 		if !bytes.Equal(yb, file) {
 			c.Violate("stored-bytes-differ", "RemoteHTTPIndex.StoreIndex", "index stored through the HTTP index server differs from Index.WriteTo output")
 			return
+		}
+		// and once more with the first attempt lost (a retried PUT must carry the whole index again)
+		if c.Bool("http.retry") {
+			cl2, err := desync.NewRemoteHTTPIndexStore(u, desync.StoreOptions{ErrorRetry: 3, ErrorRetryBaseInterval: time.Microsecond})
+			if err != nil {
+				c.HarnessError("%v", err)
+				return
+			}
+			lost := []string{"503", "reset", "500"}[c.Draw(3, "http.retry.kind")]
+			desync.VerifSetHTTPTransport(cl2.RemoteHTTPBase, &simTransport{h: h, script: []respScript{{lost}}})
+			c.Fault("http-" + lost + "-then-retry")
+			if err := cl2.StoreIndex("z.caibx", idx); err != nil {
+				c.Violate("store-failed", "RemoteHTTPIndex.StoreIndex/retry", "first PUT answered %s, error-retry 3: %v", lost, err)
+				return
+			}
+			zb, _ := os.ReadFile(filepath.Join(dir, "z.caibx"))
+			if !bytes.Equal(zb, file) {
+				c.Violate("stored-bytes-differ", "RemoteHTTPIndex.StoreIndex/retry", "first PUT answered %s; the index stored by the retry (%d bytes) differs from Index.WriteTo output (%d bytes)", lost, len(zb), len(file))
+				return
+			}
 		}
 	}
 	if storeKind == 3 {
